@@ -1,0 +1,11 @@
+//go:build verif
+
+package resolver
+
+import "github.com/containerd/containerd/v2/pkg/reference"
+
+// VerifMultiCredsFuncs exposes multiCredsFuncs (the combination of credential sources used by
+// RegistryHostsFromConfig) to the verification harness.
+func VerifMultiCredsFuncs(ref reference.Spec, credsFuncs ...Credential) func(string) (string, string, error) {
+	return multiCredsFuncs(ref, credsFuncs...)
+}
